@@ -683,6 +683,7 @@ def client_data_through_client(run):
         {"zeta": 1, "alpha": [1, 2], "type": "x", "challenge": "y", "mid": None, "crossOrigin": True, "omega": "\u00e9"},
         {"b": 1, "a": 2}, {"only": "one"}, {"k%d" % i: i for i in (9, 3, 7, 1, 8, 2)},
         {"origin": 1, "x1": 1, "x2": 2, "x3": 3},
+        {},                                            # extras that serialise to no member at all
     ]
     scs = []
     for ex in extras:
@@ -699,7 +700,10 @@ def client_data_through_client(run):
                 fails.append((sc, obs, "a ceremony with extra client data members failed: %s" % json.dumps(obs["result"])[:100])); continue
             n += 1
             text = bytes.fromhex(obs["result"]["ok"]["client_data_json"]).decode("utf-8")
-            keys = [k for k, _ in json.JSONDecoder(object_pairs_hook=lambda kv: kv).decode(text)]
+            try:
+                keys = [k for k, _ in json.JSONDecoder(object_pairs_hook=lambda kv: kv).decode(text)]
+            except ValueError as e:
+                fails.append((sc, obs, "the client data the client emitted is not a JSON object (%s): %s" % (e, text[:200]))); continue
             want = ["type", "challenge", "origin", "crossOrigin"] + list(op["cd"]["extra"].keys())
             if keys != want:
                 fails.append((sc, obs, "client data members are %s, expected the four fixed members followed by the extra members in their original order %s" % (keys, want)))
